@@ -3,7 +3,7 @@ from __future__ import annotations
 import io
 from contextlib import contextmanager
 from enum import Enum
-from functools import lru_cache
+from functools import lru_cache, wraps
 from itertools import chain
 from operator import attrgetter
 from textwrap import dedent
@@ -796,7 +796,7 @@ def _generate_structure__init__(fields: list[Field]) -> FunctionType:
     field_names = [field._name for field in fields]
 
     template: FunctionType = _make_structure__init__(len(field_names))
-    return type(template)(
+    init = type(template)(
         template.__code__.replace(
             co_consts=(None, *[field.type.__default__() for field in fields]),
             co_names=(*field_names,),
@@ -805,6 +805,7 @@ def _generate_structure__init__(fields: list[Field]) -> FunctionType:
         template.__globals__,
         argdefs=template.__defaults__,
     )
+    return _fresh_mutable_defaults(init, fields)
 
 
 def _generate_union__init__(fields: list[Field]) -> FunctionType:
@@ -816,7 +817,7 @@ def _generate_union__init__(fields: list[Field]) -> FunctionType:
     field_names = [field._name for field in fields]
 
     template: FunctionType = _make_union__init__(len(field_names))
-    return type(template)(
+    init = type(template)(
         template.__code__.replace(
             co_consts=(
                 None,
@@ -827,6 +828,29 @@ def _generate_union__init__(fields: list[Field]) -> FunctionType:
         template.__globals__,
         argdefs=template.__defaults__,
     )
+    return _fresh_mutable_defaults(init, fields)
+
+
+def _fresh_mutable_defaults(init: FunctionType, fields: list[Field]) -> FunctionType:
+    """Give every instance its own default value for fields whose default is mutable (arrays and structures).
+
+    The generated ``__init__`` holds one default object per field. That is fine for immutable values, but a
+    default list or nested structure would otherwise be shared by all instances that don't specify the field.
+    """
+    fields = list(fields)
+    mutable = [(i, field) for i, field in enumerate(fields) if issubclass(field.type, (list, Structure))]
+    if not mutable:
+        return init
+
+    @wraps(init)
+    def __init__(self: Structure, *args, **kwargs) -> None:
+        if len(args) < len(fields):
+            for i, field in mutable:
+                if i >= len(args) and kwargs.get(field._name) is None:
+                    kwargs[field._name] = field.type.__default__()
+        init(self, *args, **kwargs)
+
+    return __init__
 
 
 def _generate__eq__(fields: list[str]) -> FunctionType:
